@@ -83,6 +83,10 @@ func c08Features() []c08Feature {
 			[]c08Mut{{"alias after a recursive helper", "\"r\": SHARED_B", "\"r\": [\"x\"]"}, {"second alias after a recursive helper", "\"q\": SHARED_B", "\"q\": SHARED_A"}}},
 		{"mutual-recursion-then-aliasing", "def ping(n):\n    return 0 if n == 0 else pong(n - 1)\ndef pong(n):\n    return 1 if n == 0 else ping(n - 1)\nLST1 = [1]\nLST2 = [2]\nPAIRS = [LST1, LST2, LST2, LST1]\n", "[ping(4), PAIRS]",
 			[]c08Mut{{"alias order after mutually recursive helpers", "[LST1, LST2, LST2, LST1]", "[LST1, LST2, LST1, LST1]"}}},
+		{"long-literal-in-body", "def banner():\n    return \"" + strings.Repeat("0123456789abcdef", 100) + "\"\n", "len(banner())",
+			[]c08Mut{{"one character of a 1600-byte literal inside a function body", "0123456789abcdef\"\n", "0123456789abcdeX\"\n"}}},
+		{"long-bytes-literal-in-nested-function", "def outer_lit():\n    def inner_lit():\n        return b\"" + strings.Repeat("zyxw", 400) + "\"\n    return inner_lit\nINNER_LIT = outer_lit()\n", "len(INNER_LIT())",
+			[]c08Mut{{"one byte of a long bytes literal in a nested function", "zyxw\"\n    return inner_lit", "zyxW\"\n    return inner_lit"}}},
 		{"tuple-prefix-slice", "VERSION = (1, 4, 2)\nSERIES = VERSION[:2]\n", "[VERSION, SERIES]",
 			[]c08Mut{{"slice bound of a tuple sharing storage with another referenced tuple", "VERSION[:2]", "VERSION[:1]"}}},
 		{"tuple-slice-then-full", "FULLT = (7, 8, 9)\nHEAD = FULLT[:1]\n", "[HEAD, FULLT]",
